@@ -214,6 +214,27 @@ fn run_partial(c: &PartialCase) -> Outcome {
             format!("tag {} chunks 2^{:?} + final {}: {:?}", c.tag, c.exps, c.final_len, summarize(&o1)),
         );
     }
+    // writing what was read: a packet parsed from partial-body framing and serialised again must
+    // be a legal, truthful framing of the same body
+    {
+        use pgp::ser::Serialize as _;
+        if let Some(Ok(p)) = pgp::packet::PacketParser::new(&framed[..]).next() {
+            match p.to_bytes() {
+                Ok(written) => match frame::deframe(&written) {
+                    Ok(fr) if fr.len() == 1 && fr[0].tag == c.tag && fr[0].body == body => {
+                        if p.write_len() != written.len() {
+                            o.push("C17:partial:rewritten-packet-length-query-differs", format!("tag {} chunks 2^{:?} + final {}: write_len {} for {} octets", c.tag, c.exps, c.final_len, p.write_len(), written.len()));
+                        }
+                    }
+                    other => o.push(
+                        "C17:partial:rewritten-packet-not-a-truthful-framing",
+                        format!("tag {} chunks 2^{:?} + final {}: parsed from partial framing, written as {} octets that deframe to {:?}", c.tag, c.exps, c.final_len, written.len(), other.map(|f| f.iter().map(|x| (x.tag, x.body.len())).collect::<Vec<_>>()).map_err(|e| format!("{e:?}"))),
+                    ),
+                },
+                Err(e) => o.push("C17:partial:parsed-packet-cannot-be-written", format!("tag {} chunks 2^{:?}: {e}", c.tag, c.exps)),
+            }
+        }
+    }
     // the message reader on a literal packet
     if c.tag == 11 {
         let framed_only = &framed[..framed.len() - MARKER.len()];
@@ -485,12 +506,98 @@ fn exp_seqs(alpha: &[u8], max_len: usize) -> Vec<Vec<u8>> {
     out
 }
 
+/// A packet whose inner structure is broken (a nested length runs out early) in a body of
+/// `len` octets filled with complete user id packets, followed by two genuine packets: the
+/// parser must skip the whole declared body, never continue inside it.
+#[derive(Clone, Debug, Hash, Serialize, Deserialize)]
+pub struct ResyncCase {
+    pub kind: u8,
+    pub len: usize,
+    /// 0: new-format minimal length, 1: new-format 5-octet length, 2: legacy 4-octet length
+    pub form: u8,
+}
+
+const RESYNC_KINDS: [(&str, u8, &[u8]); 6] = [
+    ("user attribute: subpacket of 2 octets, too short for its image header", 17, &[0x02, 0x01, 0x10]),
+    ("v4 signature: hashed area of 3 octets holding a subpacket that claims 5", 2, &[4, 0, 22, 8, 0, 3, 5, 2, 0]),
+    ("v6 public key: 2 octets of key material declared for Ed25519", 6, &[6, 0, 0, 0, 1, 27, 0, 0, 0, 2, 1, 2]),
+    ("v6 PKESK: recipient field of 5 octets for a v6 fingerprint", 1, &[6, 5, 6, 1, 2, 3, 4]),
+    ("v4 SKESK: iterated S2K cut inside its salt", 3, &[4, 7, 3, 8, 1, 2]),
+    ("v3 one-pass signature: cut inside the key id", 4, &[3, 0, 8, 22, 1, 2]),
+];
+
+fn run_resync(c: &ResyncCase) -> Outcome {
+    let (what, tag, prefix) = RESYNC_KINDS[c.kind as usize];
+    let inner_uid = frame::frame_min(13, b"mallory");
+    let mut body = prefix.to_vec();
+    while body.len() + inner_uid.len() <= c.len {
+        body.extend_from_slice(&inner_uid);
+    }
+    while body.len() < c.len {
+        body.push(0);
+    }
+    let form = match c.form {
+        0 => None,
+        1 => Some(LenForm::New5),
+        _ => Some(LenForm::Old4),
+    };
+    let framed = match form {
+        None => Some(frame::frame_min(tag, &body)),
+        Some(f) => frame::frame(tag, &body, f),
+    };
+    let Some(mut stream) = framed else { return Outcome::trivial("form-not-applicable") };
+    stream.extend_from_slice(&frame::frame_min(13, b"alice"));
+    stream.extend_from_slice(&frame::frame_min(13, b"bob"));
+    let seen = observe(&stream);
+    let uids: Vec<String> = seen
+        .iter()
+        .filter_map(|r| match r {
+            Ok((13, b)) => Some(String::from_utf8_lossy(b).to_string()),
+            _ => None,
+        })
+        .collect();
+    let mut o = Outcome::ok(if matches!(seen.first(), Some(Err(_))) { "broken-packet-reported:stream-continues" } else { "broken-packet-tolerated:stream-continues" });
+    if uids.iter().any(|u| u == "mallory") {
+        o.push(
+            "C17:resync:parser-continues-inside-a-declared-body",
+            format!("{what}, body of {} octets (form {}): packets seen {:?} - a packet from inside the body of the broken packet was delivered", c.len, c.form, summarize(&seen)),
+        );
+    } else if uids != ["alice", "bob"] || seen.len() != 3 {
+        o.push(
+            "C17:resync:following-packets-lost",
+            format!("{what}, body of {} octets (form {}): packets seen {:?}", c.len, c.form, summarize(&seen)),
+        );
+    }
+    o
+}
+
 pub fn check(ctx: &Ctx) {
     if let Err(e) = frame::self_test() {
         eprintln!("MACHINERY: framing reference self-test failed: {e}");
         std::process::exit(2);
     }
     let quick = ctx.tier == Tier::Quick;
+    // packets broken inside, in bodies on both sides of the 8 KiB body-reader buffer
+    let mut rs = Vec::new();
+    for kind in 0..RESYNC_KINDS.len() as u8 {
+        let lens: Vec<usize> = if quick {
+            vec![40, 8191, 8192, 8193, 8300, 20_000]
+        } else {
+            (20..=60).chain(8180..=8210).chain([191, 192, 193, 8383, 8384, 8385, 16383, 16384, 16385, 20_000, 65_535, 65_536, 70_000]).collect()
+        };
+        for len in lens {
+            for form in 0..3u8 {
+                rs.push(ResyncCase { kind, len, form });
+            }
+        }
+    }
+    ctx.run_space(
+        "broken_packets_are_skipped_whole",
+        true,
+        "6 packet kinds whose inner structure runs out inside a nested length (user attribute, v4 signature, v6 key, v6 PKESK, v4 SKESK, one-pass signature) in declared bodies of 40..70000 octets (both sides of the 8 KiB body-reader buffer; thorough every length 20..60 and 8180..8210) filled with complete user id packets, x 3 length forms, followed by two genuine packets: PacketParser must deliver (error-or-packet, alice, bob) and never a packet from inside the declared body",
+        rs.into_par_iter(),
+        run_resync,
+    );
     // fixed / indeterminate framings
     let mut fc = Vec::new();
     for tag in 0..64u8 {
@@ -638,6 +745,7 @@ pub fn replay(space: &str, case: &Value) -> Option<Outcome> {
     match space {
         "fixed_and_indeterminate" => replay_as(case, run_fixed),
         "partial_body" => replay_as(case, run_partial),
+        "broken_packets_are_skipped_whole" => replay_as(case, run_resync),
         "illegal_framings" => replay_as(case, run_illegal),
         "written_streams" => replay_as(case, run_written),
         _ => None,
